@@ -335,7 +335,9 @@ WholesOf(e) ==
     [] e.k = "sub"  -> WholesOfSeq(e.es)
     [] OTHER        -> {}
 WholeFirm(t, W) ==
-  /\ ("line" \in W => (t[1] # 10 /\ (\A i \in 1..(Len(t) - 1) : ~(t[i] = 10 /\ t[i + 1] = 10)) /\ (\A j \in 1..Len(t) : t[j] # 13)))
+  /\ ("line" \in W => (t[1] # 10 /\ (\A i \in 1..(Len(t) - 1) : ~(t[i] = 10 /\ t[i + 1] = 10))
+                          \* a CR only as the first half of CR LF, after at least one other character of its line
+                          /\ (\A j \in 1..Len(t) : t[j] = 13 => (j > 1 /\ j < Len(t) /\ t[j + 1] = 10 /\ t[j - 1] \notin {10, 13}))))
   /\ ("word" \in W => IsWordByte(t[1]))
 
 (* The specification's answer for one command on one text: the match list   *)
